@@ -41,6 +41,7 @@ def ensure_repo_on_path():
     if sys.path[0] != REPO:
         sys.path.insert(0, REPO)
     import pytrs
+    import pytrs.tractwriter  # noqa - part of the zygote image (C19)
     got = os.path.realpath(os.path.dirname(os.path.dirname(pytrs.__file__)))
     if got != os.path.realpath(REPO):
         raise HarnessError(f"pytrs imported from {got}, expected {REPO}")
